@@ -3,7 +3,7 @@ import io
 import json
 import os
 from hypothesis import strategies as st
-from vf.common.core import Violation, check, guard, run_hypothesis, REPO
+from vf.common.core import Violation, check, guard, run_hypothesis, REPO, VERIF_ROOT
 from vf.common import be
 from vf.model import auction as A, play as P
 from vf.gen import boards as GB
@@ -15,7 +15,7 @@ RULE = ('documents of 0-8 board results from Hypothesis: ids and the four player
         'vulnerability (inside the contract), full deal, every Scoring member, auction (legal complete auctions AND '
         'arbitrary call lists), contract (35 bids x 3 doubling states x declarer, both passed-out forms), play history '
         'None / 0-13 recorded tricks, trick count None / 0-13, scores, optional full double-dummy table; written through '
-        'JsonLogWriter on a StringIO via open()/close() or via "with" (drawn). Oracle: (1) json.loads succeeds and has '
+        'JsonLogWriter via open()/close() or via "with" (drawn), on a StringIO or on a real text file in a drawn encoding (utf-8, ascii, latin-1, cp1252, utf-16 - the table manager opens its log in the locale\'s encoding) that is read back in the same encoding. Oracle: (1) json.loads succeeds and has '
         'one record per result; (2) jsonschema Draft7Validator with the two shipped schema files reports no error; (3) '
         'JsonParser.parse_board_logs returns records equal field by field to what was written, as value objects (Player '
         'keys, Vul, Hands, Bid list, Contract level/strain/doubling/vul/declarer, TrickHistory.leader a Player, Pair '
@@ -101,10 +101,36 @@ def undescribe(d):
             'owner': ['NESW'.index(ch) for ch in d['owner']]}
 
 
-def write_document(results, use_with):
+MEDIA = ['stringio', 'stringio', 'utf-8', 'ascii', 'latin-1', 'cp1252', 'utf-16']
+
+
+def write_document(results, use_with, medium='stringio'):
+    """medium: 'stringio' or the encoding of a real text file (the table manager writes its log with open(path, 'w'),
+    i.e. in the locale's encoding, whatever that is)."""
     from bridge_env.data_handler.json_handler.writer import JsonLogWriter
     from bridge_env.data_handler.pbn_handler.writer import Scoring
+    if medium != 'stringio':
+        d = os.path.join(VERIF_ROOT, '.work', 'C12')
+        os.makedirs(d, exist_ok=True)
+        path = os.path.join(d, f'doc-{os.getpid()}.json')
+        try:
+            with open(path, 'w', encoding=medium) as buf:
+                _emit_all(buf, results, use_with)
+            with open(path, 'r', encoding=medium) as f:
+                return f.read()
+        finally:
+            try:
+                os.unlink(path)
+            except OSError:
+                pass
     buf = io.StringIO()
+    _emit_all(buf, results, use_with)
+    return buf.getvalue()
+
+
+def _emit_all(buf, results, use_with):
+    from bridge_env.data_handler.json_handler.writer import JsonLogWriter
+    from bridge_env.data_handler.pbn_handler.writer import Scoring
 
     def emit(w):
         for r in results:
@@ -123,15 +149,14 @@ def write_document(results, use_with):
         w.open()
         emit(w)
         w.close()
-    return buf.getvalue()
 
 
-def check_document(results, use_with, stats=None):
+def check_document(results, use_with, stats=None, medium='stringio'):
     from bridge_env.data_handler.json_handler.parser import JsonParser
     from bridge_env.data_handler.pbn_handler.writer import Scoring
     from bridge_env import Player, Pair, Suit, Bid, Card, Vul
-    case = {'results': [describe(r) for r in results], 'use_with': use_with}
-    text = guard('JsonLogWriter raises', case, write_document, results, use_with)
+    case = {'results': [describe(r) for r in results], 'use_with': use_with, 'medium': medium}
+    text = guard('JsonLogWriter raises', case, write_document, results, use_with, medium)
     # (1) one valid JSON document
     try:
         doc = json.loads(text)
@@ -194,6 +219,7 @@ def check_document(results, use_with, stats=None):
         check(ok, 'log read as board settings yields a different board', dict(case, record=i), {'got': repr(b)[:300]})
     if stats is not None:
         stats.evaluated()
+        stats.cls(f'medium: {medium}')
         stats.cls(f'documents with {min(len(results), 3)}{"+" if len(results) >= 3 else ""} results')
         po = any(r['contract'] is None or r['contract'] == 'Pass' for r in results)
         played = any(r['contract'] not in (None, 'Pass') and r['play'] and r['dda'] is not None for r in results)
@@ -206,8 +232,9 @@ def check_document(results, use_with, stats=None):
 
 
 def run_shard(spec, seed, tier, stats):
-    v = run_hypothesis(lambda results, use_with: check_document(results, use_with, stats),
-                       {'results': st.lists(GB.result(st.text(max_size=12)), min_size=0, max_size=8), 'use_with': st.booleans()},
+    v = run_hypothesis(lambda results, use_with, medium: check_document(results, use_with, stats, medium),
+                       {'results': st.lists(GB.result(st.text(max_size=12)), min_size=0, max_size=8), 'use_with': st.booleans(),
+                        'medium': st.sampled_from(MEDIA)},
                        seed, spec['n'], tier == 'thorough')
     return [v] if v else []
 
@@ -215,7 +242,7 @@ def run_shard(spec, seed, tier, stats):
 def replay(rec):
     c = rec['case']
     try:
-        check_document([undescribe(d) for d in c['results']], c['use_with'])
+        check_document([undescribe(d) for d in c['results']], c['use_with'], None, c.get('medium', 'stringio'))
     except Violation as v:
         return v
     return None
